@@ -45,32 +45,70 @@ def prepare_harness(repo=REPO):
     return d
 
 
-def build_driver(repo=REPO, quiet=True):
-    """Returns (driver_path, conc_path). Raises RuntimeError when the build fails."""
+def _fingerprint(repo):
+    """Digest of (path, size, mtime_ns) of every file that can influence the build: the repository outside target/ and
+    .git/, and the harness sources."""
+    h = hashlib.sha1()
+    for root in (repo, os.path.join(VERIF, 'harness')):
+        for d, dirs, files in os.walk(root):
+            dirs[:] = sorted(x for x in dirs if x not in ('target', '.git', 'tests', 'spectest'))
+            for f in sorted(files):
+                p = os.path.join(d, f)
+                try:
+                    st = os.stat(p)
+                except OSError:
+                    continue
+                h.update(('%s|%d|%d\n' % (p, st.st_size, st.st_mtime_ns)).encode())
+    return h.hexdigest()
+
+
+def _locked(name):
     os.makedirs(OUT, exist_ok=True)
-    with open(os.path.join(OUT, '.build.lock'), 'w') as lk:
-        fcntl.flock(lk, fcntl.LOCK_EX)
+    lk = open(os.path.join(OUT, '.build-%s.lock' % name), 'w')
+    fcntl.flock(lk, fcntl.LOCK_EX)
+    return lk
+
+
+def build_driver(repo=REPO, quiet=True):
+    """Returns (driver_path, conc_path), rebuilt from the repository's current working tree.  cargo is only invoked when
+    a source file changed since the last successful build of this target (same rule cargo itself uses: size + mtime).
+    Raises RuntimeError when the build fails."""
+    td = target_dir(repo)
+    outs = (os.path.join(td, 'release', 'driver'), os.path.join(td, 'release', 'conc'))
+    stamp = os.path.join(td, '.verif-fingerprint')
+    with _locked('driver-' + _tag(repo)):
+        fp = _fingerprint(repo)
+        if all(os.path.exists(o) for o in outs) and os.path.exists(stamp) and open(stamp).read() == fp:
+            return outs
         d = prepare_harness(repo)
-        td = target_dir(repo)
         r = subprocess.run(['cargo', 'build', '--release', '--offline'], cwd=d,
                            env=dict(_env(), CARGO_TARGET_DIR=td),
                            stdout=subprocess.PIPE, stderr=subprocess.STDOUT, text=True)
         if r.returncode != 0:
             sys.stderr.write(r.stdout[-6000:])
             raise RuntimeError('driver build failed')
-    return os.path.join(td, 'release', 'driver'), os.path.join(td, 'release', 'conc')
+        if _fingerprint(repo) == fp:
+            with open(stamp, 'w') as f:
+                f.write(fp)
+    return outs
 
 
 def build_cli(repo=REPO):
     """Build the rsass command-line tool from the working tree; returns its path."""
-    os.makedirs(OUT, exist_ok=True)
-    with open(os.path.join(OUT, '.build.lock'), 'w') as lk:
-        fcntl.flock(lk, fcntl.LOCK_EX)
-        td = target_dir(repo) + '-cli'
+    td = target_dir(repo) + '-cli'
+    out = os.path.join(td, 'debug', 'rsass')
+    stamp = os.path.join(td, '.verif-fingerprint')
+    with _locked('cli-' + _tag(repo)):
+        fp = _fingerprint(repo)
+        if os.path.exists(out) and os.path.exists(stamp) and open(stamp).read() == fp:
+            return out
         r = subprocess.run(['cargo', 'build', '--offline', '-p', 'rsass-cli'], cwd=repo,
                            env=dict(_env(), CARGO_TARGET_DIR=td),
                            stdout=subprocess.PIPE, stderr=subprocess.STDOUT, text=True)
         if r.returncode != 0:
             sys.stderr.write(r.stdout[-6000:])
             raise RuntimeError('cli build failed')
-    return os.path.join(td, 'debug', 'rsass')
+        if _fingerprint(repo) == fp:
+            with open(stamp, 'w') as f:
+                f.write(fp)
+    return out
